@@ -5,6 +5,8 @@ CONSTANTS
   BothFill = TRUE
   Seed <- EnvSeed
   PropLimit = 40
+  Thin = 1
+  BigMult = 120
   Emit = TRUE
 INVARIANTS Check CalcVector
 CHECK_DEADLOCK FALSE
